@@ -403,6 +403,14 @@ func (f *Frame) dispatch(st *State, e *ast.CallExpr, fn *types.Func, recv *Term,
 				}
 			}
 			f.recordCall(st, rn, ev)
+			// the first string result of a recorded call is remembered as well (lastStr(name))
+			for _, r := range rs {
+				if r.Sort == SStr {
+					ls := c.heapGet(st, "G!laststr", ArrSort(SStr, SStr))
+					c.heapSet(st, "G!laststr", Store(ls, c.strLit(rn), r))
+					break
+				}
+			}
 		}
 		return rs
 	}
